@@ -61,7 +61,14 @@ func parseJSONMultiPoint(keys *parseKeys, opts *ParseOptions) (Object, error) {
 		if err != nil {
 			return false
 		}
-		g.children = append(g.children, &Point{base: coords, extra: ex})
+		point := &Point{base: coords, extra: ex}
+		if opts.RequireValid {
+			if !point.Valid() {
+				err = errCoordinatesInvalid
+				return false
+			}
+		}
+		g.children = append(g.children, point)
 		return true
 	})
 	if err != nil {
